@@ -23,7 +23,7 @@ from vverif.core import Result, Violation, HarnessError
 LEVEL = 'exploration'
 
 # ------------------------------------------------------------------ configuration pool
-# (password, [actions]); quick uses the first 5 lines, thorough all 9.  Every performed shutdown costs an instance restart
+# (password, [actions]); quick uses the first 4 lines, thorough all 9.  Every performed shutdown costs an instance restart
 # (~5 s), which is why `none shutdown` and the extra spellings of the shutdown URL are left to the thorough tier.
 PASSWD_POOL = [
     ('secret', ['info']),
@@ -48,9 +48,13 @@ NEEDS_PASSWORD = {'shutdown', 'config'}
 ACTIONS = ['info', 'menu', 'config', 'shutdown']
 
 # ------------------------------------------------------------------ request product
-URLS_QUICK = ['info', 'menu', 'shutdown', 'config', 'unknown', 'info?x=1', 'INFO', 'in%66o', 'SHUTDOWN', 'abs:info']
-URLS_THOROUGH = URLS_QUICK + ['shutdown?x=1', 'abs:shutdown']      # abs: = absolute-form request target naming this Squid
-QUICK_POOL = 5
+URLS_QUICK = ['info', 'menu', 'shutdown', 'config', 'unknown', 'info?x=1', 'INFO', 'in%66o', 'SHUTDOWN', 'abs:info', 'absuc:info',
+              'absftp:info']
+# abs: absolute-form request target naming this Squid (http://squid.verif:<port>/...); absuc: the same with the host in upper
+# case; absftp: the same with scheme ftp (the manager ACL is a regular expression over the URL, the dispatch to the cache
+# manager goes by host, port and path prefix: both must agree)
+URLS_THOROUGH = URLS_QUICK + ['abs:shutdown']
+QUICK_POOL = 4
 CREDS = ['none', 'basic-secret', 'basic-other', 'basic-wrong', 'basic-prefix', 'basic-emptyuser-secret', 'basic-nocolon-secret',
          'userinfo-secret']
 SOURCES = ['127.0.0.1', '127.0.0.2']
@@ -68,11 +72,25 @@ def presented_password(cred):
             'basic-emptyuser-secret': 'secret', 'basic-nocolon-secret': None, 'userinfo-secret': 'secret'}[cred]
 
 
+ABS_RE = re.compile(r'^(abs\w*):(.*)$')
+
+
+def action_named(url):
+    """The action name a URL form spells (without the abs*: form prefix and the query)."""
+    m = ABS_RE.match(url)
+    return (m.group(2) if m else url).split('?')[0]
+
+
 def build_request(req, port):
+    """Returns (request bytes, the URL Squid evaluates http_access on)."""
     u = req['url']
-    absform = u.startswith('abs:') or req['cred'].startswith('userinfo')
-    path = '/squid-internal-mgr/' + (u[4:] if u.startswith('abs:') else u)
+    m = ABS_RE.match(u)
+    form, rest = (m.group(1), m.group(2)) if m else ('', u)
+    absform = bool(form) or req['cred'].startswith('userinfo')
+    path = '/squid-internal-mgr/' + rest
     host = 'squid.verif:%d' % port
+    scheme = 'ftp' if form == 'absftp' else 'http'
+    urlhost = host.upper() if form == 'absuc' else host
     hdr = ''
     c = req['cred']
     userinfo = ''
@@ -90,11 +108,11 @@ def build_request(req, port):
         hdr = 'secret'
     elif c == 'userinfo-secret':
         userinfo = 'admin:secret@'
-    target = ('http://%s%s%s' % (userinfo, host, path)) if absform else path
+    target = ('%s://%s%s%s' % (scheme, userinfo, urlhost, path)) if absform else path
     raw = 'GET %s HTTP/1.1\r\nHost: %s\r\n' % (target, host)
     if hdr:
         raw += 'Authorization: Basic %s\r\n' % base64.b64encode(hdr.encode()).decode()
-    return (raw + '\r\n').encode('latin1'), 'http://%s%s' % (host, path)
+    return (raw + '\r\n').encode('latin1'), '%s://%s%s' % (scheme, urlhost, path)
 
 
 # ------------------------------------------------------------------ reference model
@@ -166,7 +184,15 @@ def req_key(r):
 def config_space(tier):
     pool = PASSWD_POOL[:QUICK_POOL] if tier == 'quick' else PASSWD_POOL
     lists = [[]] + [[a] for a in pool] + [[a, b] for a in pool for b in pool if a is not b]
-    return [(l, h) for l in lists for h in ('H1', 'H2', 'H3')]
+    space = [(l, h) for l in lists for h in ('H1', 'H2', 'H3')]
+    # scheduling only: shards get the configurations round-robin, and every performed shutdown costs an instance restart, so
+    # order the list by an upper estimate of that cost to balance the shards
+    reqs = requests_of(tier)
+
+    def cost(cfg):
+        return sum(1 for r in reqs if names_shutdown(r) and ref_access(cfg[1], r, build_request(r, 0)[1])
+                   and ref_may_perform('shutdown', cfg[0], presented_password(r['cred']))[0])
+    return sorted(space, key=lambda c: -cost(c))
 
 
 # ------------------------------------------------------------------ world
@@ -237,7 +263,8 @@ class MWorld:
                 break
         else:
             raise HarnessError('reconfiguration did not finish: ' + sq.cache_log()[-1200:])
-        if 'Reconfiguring Squid Cache' not in seen or re.search(r'FATAL|ERROR|WARNING', seen):
+        # the parser only complains (and still installs the line) when an action is named by two lines
+        if 'Reconfiguring Squid Cache' not in seen or re.search(r'FATAL|ERROR|WARNING', re.sub(r".*ERROR: action '\w+' \(line \d+\) already has a password.*", '', seen)):
             raise HarnessError('unexpected cache.log content during reconfiguration: ' + seen[-1200:])
         sq.advance(50, rounds=2)
         self.reconfigs += 1
@@ -461,7 +488,7 @@ def make_worker(ctx):
                     res['det_checked'] += 1
                 for r, t, cls in zip(REQUESTS, tr, classes):
                     res['classes'][cls] = res['classes'].get(cls, 0) + 1
-                    exact = r['url'].replace('abs:', '').split('?')[0] in ACTIONS
+                    exact = action_named(r['url']) in ACTIONS
                     if exact and (cls.startswith('performed') or t[0] in (401, 403)):
                         res['nontrivial'] += 1
                     if t[0] == 401:
@@ -478,6 +505,13 @@ def make_worker(ctx):
                                            'refused': [req_key(r) + ' -> %s' % t[0] for r, t in zip(REQUESTS, tr) if t[0] in (401, 403)][:3]})
                 if probs:
                     res['crashes'].append((cfg_key(cfg), '; '.join(probs)[:2500], cfg))
+                if bad:
+                    # the confirmation instance uses this shard's port block: take the sweep instance down first
+                    res['starts'] += w.starts
+                    res['reconfigs'] += w.reconfigs
+                    w.stop()
+                    res['kicks'] += w.kicks
+                    w = MWorld(ctx, shard)
                 for req, text in bad[:2]:
                     v2 = None
                     for attempt in range(2):
